@@ -5,6 +5,11 @@ mod number;
 
 use crate::{BasicData, BasicDataCustom, BasicGarnishData, DataError, basic::companion::BasicDataCompanion};
 
+/// Nesting depth past which conversions stop descending (the same bound as
+/// `SimpleGarnishData`'s `max_char_list_depth`), so that deeply nested data
+/// cannot exhaust the native stack.
+pub(crate) const MAX_CONVERSION_DEPTH: usize = 1000;
+
 pub trait ConversionDelegate<T, Input, Companion>
 where
     T: BasicDataCustom,
